@@ -27,7 +27,7 @@ def replay(path):
 
 def extra(chk, info, res):
     from checks import decisions_common as _dc
-    _dc.tie(chk, ['backwash'])
+    _dc.tie(chk, ['backwash', 'eco_polls'])
     from checks import guards_common
     guards_common.correspondence(chk, ['tank_is_high', 'start_backwash'])
     if info is not None:
